@@ -145,6 +145,11 @@ class BuildAssembly(Assembly):
         for i, scffld in enumerate(ordered_scaffolds):
             keep_start = i == 0
             keep_end = i == last_i
+            if frgmnt.strand != 1:
+                # ordered_scaffolds is sorted by position within the fragment.
+                # For a reverse strand fragment the start of the fragment is
+                # at the end of its row in the OverlapResult, and vice versa.
+                keep_start, keep_end = keep_end, keep_start
             sub_fragments.append(scffld.trim_fragment(frgmnt, keep_start, keep_end))
         self.qc_sub_fragments(fnd, sub_fragments)
 
